@@ -91,6 +91,24 @@ def run(tier, seed):
             raise vlib.InfraError("trace check failed: %r" % rt)
         if rt.status == "ok" and rt.distinct != len(rows) + 1:
             raise vlib.InfraError("trace not fully consumed: %d states for %d lines" % (rt.distinct, len(rows)))
+    # threshold use when certificates are FORMED: the vote collector, the Kauri aggregation and the timeout collector must
+    # produce a certificate exactly when the quorum is reached (the drivers and trace specifications of C09 / C08, small runs)
+    formed = {}
+    with vlib.scratch(PROP + "f") as d2:
+        for drv, args, module in (("c09", ["-seqs", 24, "-rounds", 3], "Trace_C09"), ("c09kauri", ["-seqs", 40], "Trace_C09k"),
+                                  ("c08", ["-seqs", 40, "-len", 20], "Trace_C08")):
+            tr3 = os.path.join(d2, "trace.ndjson")
+            vlib.run_harness([drv, "-out", tr3, "-seed", seed] + args, timeout=1200)
+            part = vlib.read_ndjson(tr3)
+            rtf = vlib.tlc(module, cfg=module + "_A.cfg", cwd=d2, workers=1, timeout=1200, heap="8g")
+            formed[drv] = len(part)
+            if rtf.status == "violation":
+                lf = vlib.last_l(rtf)
+                line = part[lf - 1] if 0 < lf <= len(part) else None
+                v.violation("quorum-use:formation:" + drv, "a certificate is not formed exactly when the quorum is reached (%s): %s" % (drv, str(line)[:500]),
+                            {"line": lf, "case": line, "harness": "hsverif %s -seed %d" % (drv, seed)})
+            elif rtf.status != "ok":
+                raise vlib.InfraError("formation check %s: %r" % (drv, rtf))
     rc = v.finish()
     samples = [{"n": rows[0]["n0"] + i, "f": rows[0]["f"][i], "q": rows[0]["q"][i]} for i in (0, 3, 6, 12)]
     samples += [x for x in rows if x["kind"] == "config"][:3]
@@ -108,10 +126,10 @@ def run(tier, seed):
         "model": {"tlc_n_range": "1..10000", "tlc_states": r.distinct, "negative_control_refuted": True,
                   "apalache_all_n": {"obligations": 1, "discharged": 1, "negative_control_refuted": True,
                                      "cmd": "apalache-mc check --length=0 --inv=Inv QuorumApa.tla"}},
-        "trace_lines": len(rows), "threshold_use_cases": nuse,
+        "trace_lines": len(rows), "threshold_use_cases": nuse, "formation_lines_checked": formed,
         "checker_cmd": rt.cmd,
     }, time.time() - t0, violations=len(v.violations), assumptions=[
-        "TLC, Apalache/Z3 and SANY are sound", "threshold use when *forming* certificates is covered by C08/C09"])
+        "TLC, Apalache/Z3 and SANY are sound", "threshold use when forming certificates: small runs of the C08/C09 drivers; their depth is C08/C09's"])
     return rc
 
 
